@@ -701,7 +701,8 @@ int ILLsymboltab_uname (
 	{
 		i = 0;
 		sprintf (prefix, "%s", try_prefix[0]);
-		numlen = (log10 ((double) (symtab->tablesize - 1) * 10)) + 1;
+		/* log10(0) for a table with a single entry made numlen negative and the index below run out of the buffer */
+		numlen = (symtab->tablesize > 1) ? (int) (log10 ((double) (symtab->tablesize - 1) * 10)) + 1 : 1;
 		while (!found)
 		{
 			ILL_FAILfalse (i <= nvars, "something wrong in find_unique_name");
